@@ -328,12 +328,14 @@ def _check_property(prop, tier, seed, mine, scratch, findings, t0):
             if name not in rel:
                 undecided.append('%s: function %s (in the committed baseline) is no longer in the unit' % (uname, name))
         for name, meta in sorted(rel.items()):
-            res = r.fn_results.get(name)
+            res = r.fn_results.get(name.split('@')[0])
             errs = errs_by_fn.get(name, [])
             if res is None and not errs:
                 undecided.append('%s: verus reported nothing for %s' % (uname, name))
                 continue
-            ok = (res is None or res['success']) and not errs
+            # failures are decided by the diagnostics (each carries a line inside exactly one function); the per-name
+            # solver summary is only used for timing, because several impls may define a method of the same name
+            ok = not errs
             if meta.get('expect_fail'):
                 # finding obligation: expected to fail on the listed region
                 fid = meta['expect_fail']
